@@ -488,6 +488,11 @@ func visitTolerant(fr *frame, instr ssa.Instruction) (k continuation) {
 		}
 	}()
 	if c, ok := instr.(*ssa.Call); ok {
+		if callee := c.Call.StaticCallee(); callee != nil && callee.Pkg == fr.fn.Pkg && strings.HasPrefix(callee.Name(), "init#") {
+			if !userInitAllowed(callee) {
+				return kNext
+			}
+		}
 		if callee := c.Call.StaticCallee(); callee != nil && callee.Pkg != nil && callee.Pkg != fr.fn.Pkg {
 			if callee.Name() == "init" {
 				return kNext // other packages are initialised lazily
@@ -504,6 +509,21 @@ func visitTolerant(fr *frame, instr ssa.Instruction) (k continuation) {
 
 func initEffectAllowed(callee *ssa.Function) bool {
 	return false
+}
+
+// userInitAllowed: hand-written init functions are executed only for the repository's
+// own packages (and bitxhub-core); generated *.pb.go registrations are skipped.
+func userInitAllowed(callee *ssa.Function) bool {
+	p := callee.Pkg.Pkg.Path()
+	if !(strings.HasPrefix(p, "github.com/meshplus/bitxhub/") || strings.HasPrefix(p, "github.com/meshplus/bitxhub-core/")) {
+		return false
+	}
+	if pos := callee.Pos(); pos.IsValid() {
+		if strings.HasSuffix(callee.Prog.Fset.Position(pos).Filename, ".pb.go") {
+			return false
+		}
+	}
+	return true
 }
 
 func panicString(p interface{}) string {
